@@ -125,11 +125,21 @@ def mem_single_step(ctx: RunCtx):
                     n_acc += 1
                 elif node.attr not in ("app", "logger"):
                     if isinstance(node.ctx, (ast.Store, ast.Del)):
-                        bad.append(f"{m} line {node.lineno}: assigns self.{node.attr}")
-                    else:
-                        bad.append(f"{m} line {node.lineno}: reads self.{node.attr} (state besides _workflow_data)")
+                        bad.append(f"{m} line {node.lineno}: assigns self.{node.attr} (a second attribute that has to stay in step with _workflow_data across a thread switch)")
             if isinstance(node, (ast.Global, ast.Nonlocal)):
                 bad.append(f"{m} line {node.lineno}: global/nonlocal state")
+            if isinstance(node, ast.Call) and isinstance(node.func, ast.Attribute) and isinstance(node.func.value, ast.Attribute) and \
+                    isinstance(node.func.value.value, ast.Name) and node.func.value.value.id == "self" and node.func.value.attr not in ("_workflow_data", "app", "logger") and \
+                    node.func.attr in ("add", "discard", "remove", "pop", "append", "clear", "update", "setdefault", "extend", "insert", "popitem"):
+                bad.append(f"{m} line {node.lineno}: edits self.{node.func.value.attr} in place")
+            if isinstance(node, (ast.Assign, ast.Delete)):
+                for t in node.targets:
+                    if isinstance(t, ast.Subscript):
+                        root = t.value
+                        while isinstance(root, ast.Subscript):
+                            root = root.value
+                        if isinstance(root, ast.Attribute) and isinstance(root.value, ast.Name) and root.value.id == "self" and root.attr not in ("_workflow_data",):
+                            bad.append(f"{m} line {node.lineno}: stores into self.{root.attr}")
     missing = [m for m in MEM_METHODS if m not in methods]
     ok = not bad and not missing and n_acc >= 2
     o = Obligation(name=f"{PID}/ownership/MemStateBackend.workflow-data/each-operation-is-one-step-on-_workflow_data-and-keeps-no-other-state",
@@ -279,8 +289,9 @@ def generators_pure(ctx: RunCtx):
             if isinstance(t, ast.Name) and isinstance(val, (ast.Call, ast.Dict, ast.List, ast.Set, ast.ListComp, ast.DictComp, ast.SetComp)):
                 f = val.func if isinstance(val, ast.Call) else None
                 fname = f.id if isinstance(f, ast.Name) else f.attr if isinstance(f, ast.Attribute) else ""
-                if fname in ("TypeVar", "getLogger", "NewType", "namedtuple"):
-                    continue
+                if fname in ("TypeVar", "getLogger", "NewType", "namedtuple", "datetime", "timedelta", "date", "time", "timezone", "compile", "Path", "frozenset", "tuple",
+                             "Decimal", "Fraction", "UUID", "int", "float", "str", "bytes", "ParamSpec", "TypeAlias"):
+                    continue          # immutable values and typing helpers: nothing a second executor could change
                 shared[t.id] = node.lineno
     cls = ctx.src.klass(WD, "DeterministicExecutor")
     methods = {n.name: n for n in cls.body if isinstance(n, (ast.FunctionDef, ast.AsyncFunctionDef))}
